@@ -55,12 +55,14 @@ pub fn run(out: &mut Out, seed: u64, tier: &str) {
         for _ in 0..(if tier == "thorough" { 120 } else { 25 }) { mols.push(linear_chain(&zs, rng.range(0.9, 1.1))); }
     }
     let (mut n_files, mut n_files_tried) = (0usize, 0usize);
+    // translation sizes the changed source lines mention (the value and its reciprocal), within what doubles still resolve
+    let hint_big: Vec<f64> = hints().magnitudes().into_iter().filter(|m| *m >= 10.0 && *m <= 1e6).collect();
     let mut n_far = 0usize;
     let (mut n, mut skipped, mut worst_e, mut worst_f, mut worst_t, mut worst_cov) = (0usize, 0usize, 0.0f64, 0.0f64, 0.0f64, 0.0f64);
     for m in mols.iter() {
         if m.n() > 24 || m.n() == 0 || m.min_distance() < 0.5 { continue; }
         let r = random_rotation(&mut rng);
-        let big = 10f64.powf(rng.range(0.0, 4.0));
+        let big = if !hint_big.is_empty() && n_files_tried % 7 == 3 { hint_big[rng.below(hint_big.len())] * *rng.pick(&[0.5, 1.5]) } else { 10f64.powf(rng.range(0.0, 4.0)) };
         let t = [rng.range(-1.0, 1.0) * big, rng.range(-1.0, 1.0) * big, rng.range(-1.0, 1.0) * big];
         let mm = moved(m, &r, t);
         let (mol, mol2) = match (catch(|| m.build()), catch(|| mm.build())) { (Some(a), Some(b)) => (a, b), _ => continue };
